@@ -11,6 +11,8 @@ def run_one(prop, tier, seed, replay=None):
             ctx.replay = json.load(open(replay))
         else:
             ctx.replay = None
+        from harness import corpus
+        corpus.run(ctx)              # the minimised inputs of repaired defects first
         mod.run(ctx)
     except Exception as e:  # a crashing harness must never look like a pass
         ctx.broke('harness', f'{type(e).__name__}: {e}', traceback.format_exc())
